@@ -2,6 +2,7 @@ import QV.Model.Compiler
 import QV.Proofs.Circuit
 import QV.Proofs.Bennett
 import QV.Props.C02
+import QV.Proofs.CompilerClean
 /-!
 # C03 – Compiled circuits are clean: inputs preserved, scratch qubits back to zero
 
@@ -158,5 +159,88 @@ theorem compile_replay_restores (inputs : List String) (defs : List (String × B
     (h : (compile inputs defs ret unc).run { choices := cs } = .ok ((), s)) (st : BState) :
     runClassical (s.qc.gates.toList ++ s.qc.gates.toList.reverse) st = st :=
   C02.compile_reverse_replay_undoes inputs defs ret unc cs s h st
+
+/-! ## Cleanliness on the proved fragment (`QV/Proofs/CompilerClean.lean`) -/
+
+/-- the class of `C03_fragment_partial` asks for at least one requested return name, and every
+requested name is the defined one -/
+theorem mem_rets_of_class {r : String} {rets : List String} (hne : rets.isEmpty = false)
+    (hall : ∀ r' ∈ rets, r' = r) : r ∈ rets := by
+  cases rets with
+  | nil => simp at hne
+  | cons r' rs =>
+    have := hall r' List.mem_cons_self
+    subst this
+    exact List.mem_cons_self
+
+/-- **C03 on the tree-like single-definition fragment without De Morgan `Or`** (`inCleanFragment`:
+`inFragment`, at least one requested return name, every `Or` with at most two arguments), with
+`uncompute = true`: every successful run of the compiler model – for every admissible sequence of
+ancilla choices – gives a `Clean` circuit: on every classical input every argument qubit is
+unchanged and every qubit other than the qubit of the return name is back to zero.  Partial with
+respect to C03: one definition only, no repeated compound sub-expression, no constant, and no `Or`
+with three or more arguments – for the last restriction the statement is *false* on `inFragment`
+(`C03_fragment_demorgan_witness`). -/
+theorem C03_fragment_partial (inputs : List String) (defs : List (String × BExp)) (rets : List String)
+    (choices : List Nat) (s : CState)
+    (hf : inCleanFragment inputs defs rets = true)
+    (h : (compile inputs defs (some rets) true).run { choices := choices } = .ok ((), s)) :
+    Clean s.qc.gates.toList s.qc.numQubits inputs.length (rets.filterMap (dictGet? s.qc.qmap)) := by
+  match defs, hf, h with
+  | [(r, e)], hf, h =>
+    simp only [inCleanFragment, inFragment, Bool.and_eq_true, decide_eq_true_eq, List.all_eq_true, bne_iff_ne,
+      ne_eq, Bool.not_eq_true', beq_iff_eq] at hf
+    obtain ⟨⟨⟨⟨⟨⟨hnd, hfr⟩, hov⟩, htl⟩, hrets⟩, hne⟩, hso⟩ := hf
+    have hr : r ∈ rets := mem_rets_of_class hne hrets
+    intro x hx q hq
+    obtain ⟨q0, hq0, hcl, _, _, htg⟩ := compile_single_clean h rfl hr hnd (fun n hn => hfr n hn) hov htl hso x hx
+    dsimp only
+    constructor
+    · intro hlt
+      rw [untargeted_qubit_unchanged _ q _ _, initState_getD]
+      intro g hg hlast
+      have : g.target = q := by unfold AGate.target; rw [hlast]; rfl
+      have := htg g hg
+      omega
+    · intro hge hno
+      have hne' : q ≠ q0 := by
+        rintro rfl
+        exact hno (List.mem_filterMap.mpr ⟨r, hr, hq0⟩)
+      rw [hcl q hne', initState_getD]
+      have : x[q]? = none := by simp; omega
+      simp [List.getD_eq_getElem?_getD, this]
+
+/-- an instance of the class of `C03_fragment_partial` (nested `And` / `Xor` / `Not`, binary `Or`) -/
+example : inCleanFragment ["a", "b", "c"]
+    [("_ret", .and [.or [.and [.sym "a", .not (.sym "b")], .xor [.sym "c", .not (.and [.sym "a", .sym "c"])]],
+                    .sym "b"])] ["_ret"] = true := by
+  decide +kernel
+
+/-- the excluded part of `inFragment`: `a & (a | b | c)` is in the class of `C02_fragment_partial` but its
+circuit is **not** clean.  The gate list is the one the model (and the real compiler) emits with
+ancillas 3, 4 (`anc_0` = the De Morgan `Or`, qubit 4 = `_ret`): `uncompute` replays `X 3` and the `MCX`
+into qubit 3 without the `X` gates on the argument qubits, so on input `000` qubit 3 ends as 1 (open
+finding `C03-uncompute-stale`).  (Kernel evaluation of `compile` itself is stuck on `List.mergeSort`,
+so the list is spelled out; `./check C03` compares model and compiler gate lists on such instances.) -/
+theorem C03_fragment_demorgan_witness :
+    inFragment ["a", "b", "c"] [("_ret", .and [.sym "a", .or [.sym "a", .sym "b", .sym "c"]])] ["_ret"] = true ∧
+    inCleanFragment ["a", "b", "c"] [("_ret", .and [.sym "a", .or [.sym "a", .sym "b", .sym "c"]])] ["_ret"] = false ∧
+    validateClean [{ cls := .X, wires := [0] }, { cls := .X, wires := [1] }, { cls := .X, wires := [2] },
+      { cls := .MCX 3, wires := [0, 1, 2, 3] }, { cls := .X, wires := [0] }, { cls := .X, wires := [1] },
+      { cls := .X, wires := [2] }, { cls := .X, wires := [3] }, { cls := .MCX 2, wires := [0, 3, 4] },
+      { cls := .X, wires := [3] }, { cls := .MCX 3, wires := [0, 1, 2, 3] },
+      { cls := .X, wires := [2] }, { cls := .X, wires := [1] }, { cls := .X, wires := [0] },
+      { cls := .X, wires := [2] }, { cls := .X, wires := [1] }, { cls := .X, wires := [0] }] 5 3 [4] = false := by
+  decide +kernel
+
+/-- the other excluded part: with no requested return name nothing is kept and `uncompute_all` replays
+the gate of the result qubit after its control was uncomputed: `(a & b) & c` (model output with
+ancillas 3, 4) leaves qubit 4 dirty -/
+theorem C03_fragment_norets_witness :
+    inFragment ["a", "b", "c"] [("_ret", .and [.and [.sym "a", .sym "b"], .sym "c"])] [] = true ∧
+    inCleanFragment ["a", "b", "c"] [("_ret", .and [.and [.sym "a", .sym "b"], .sym "c"])] [] = false ∧
+    validateClean [{ cls := .MCX 2, wires := [0, 1, 3] }, { cls := .MCX 2, wires := [2, 3, 4] },
+      { cls := .MCX 2, wires := [0, 1, 3] }, { cls := .MCX 2, wires := [2, 3, 4] }] 5 3 [] = false := by
+  decide +kernel
 
 end QV.C03
